@@ -190,3 +190,75 @@ Lemma node_at_new_new s n : node_at (fst (new_node s n)) (length (nodes s)) = n.
 Proof. unfold node_at, new_node. cbn. rewrite app_nth2 by lia. rewrite Nat.sub_diag. reflexivity. Qed.
 Lemma node_at_oob s a : (length (nodes s) <= a)%nat -> node_at s a = empty_node.
 Proof. intros H. unfold node_at. apply nth_overflow. exact H. Qed.
+
+(* ---- well-formed stores: every link points at an existing node *)
+Definition wf (s : store) : Prop :=
+  forall a k x, In (k, x) (links (node_at s a)) -> (x < length (nodes s))%nat.
+
+Lemma link_get_In k l a : link_get k l = Some a -> exists k', In (k', a) l.
+Proof.
+  induction l as [|[k' a'] l IH]; cbn; [discriminate|].
+  destruct (tok_eqb k' k).
+  - intros H. injection H as ->. exists k'. left. reflexivity.
+  - intros H. destruct (IH H) as [k2 Hin]. exists k2. right. exact Hin.
+Qed.
+Lemma wf_child s a k x : wf s -> child s a k = Some x -> (x < length (nodes s))%nat.
+Proof. intros W H. unfold child in H. apply link_get_In in H. destruct H as [k' Hin]. eapply W. exact Hin. Qed.
+
+Lemma wf_set_attr s a k v : wf s -> wf (set_attr s a k v).
+Proof.
+  intros W b k' x Hin. rewrite links_set_attr in Hin. rewrite length_set_attr. eapply W. exact Hin.
+Qed.
+Lemma length_set_links s a l : length (nodes (set_links s a l)) = length (nodes s).
+Proof. apply upd_node_length. Qed.
+Lemma In_link_del k l p : In p (link_del k l) -> In p l.
+Proof. unfold link_del. intros H. apply filter_In in H. tauto. Qed.
+Lemma wf_add_link s a k x : wf s -> (x < length (nodes s))%nat -> wf (add_link s a k x).
+Proof.
+  intros W Hx b k' y Hin. unfold add_link in *. rewrite length_set_links.
+  destruct (Nat.eq_dec a b) as [->|Ne].
+  - destruct (Nat.lt_ge_cases b (length (nodes s))) as [L|L].
+    + rewrite links_set_links_same in Hin by exact L. apply in_app_or in Hin. destruct Hin as [Hin|Hin].
+      * apply In_link_del in Hin. eapply W. exact Hin.
+      * destruct Hin as [E|[]]. injection E as _ <-. exact Hx.
+    + unfold set_links, upd_node, node_at in Hin. cbn in Hin. rewrite upd_nth_oob in Hin by exact L.
+      eapply W. exact Hin.
+  - rewrite links_set_links_other in Hin by exact Ne. eapply W. exact Hin.
+Qed.
+Lemma wf_del_link s a k : wf s -> wf (del_link s a k).
+Proof.
+  intros W b k' y Hin. unfold del_link in *. rewrite length_set_links.
+  destruct (Nat.eq_dec a b) as [->|Ne].
+  - destruct (Nat.lt_ge_cases b (length (nodes s))) as [L|L].
+    + rewrite links_set_links_same in Hin by exact L. apply In_link_del in Hin. eapply W. exact Hin.
+    + unfold set_links, upd_node, node_at in Hin. cbn in Hin. rewrite upd_nth_oob in Hin by exact L.
+      eapply W. exact Hin.
+  - rewrite links_set_links_other in Hin by exact Ne. eapply W. exact Hin.
+Qed.
+Lemma wf_new_node s n : wf s -> links n = [] -> wf (fst (new_node s n)).
+Proof.
+  intros W Hn a k x Hin. unfold new_node in *. cbn [fst nodes] in *. rewrite app_length. cbn.
+  destruct (Nat.lt_ge_cases a (length (nodes s))) as [L|L].
+  - unfold node_at in Hin. cbn in Hin. rewrite app_nth1 in Hin by exact L.
+    pose proof (W a k x Hin). lia.
+  - unfold node_at in Hin. cbn in Hin.
+    destruct (Nat.eq_dec a (length (nodes s))) as [->|Ne].
+    + rewrite app_nth2 in Hin by lia. rewrite Nat.sub_diag in Hin. cbn in Hin. rewrite Hn in Hin. destruct Hin.
+    + rewrite nth_overflow in Hin by (rewrite app_length; cbn; lia). destruct Hin.
+Qed.
+Lemma length_new_node s n : length (nodes (fst (new_node s n))) = S (length (nodes s)).
+Proof. unfold new_node. cbn. rewrite app_length. cbn. lia. Qed.
+
+Lemma ensure_group_wf s pa k s' c : wf s -> ensure_group s pa k = (s', c) ->
+  wf s' /\ (c < length (nodes s'))%nat /\ (length (nodes s) <= length (nodes s'))%nat.
+Proof.
+  intros W E. unfold ensure_group in E. destruct (child s pa k) as [c0|] eqn:Ec.
+  - injection E as <- <-. split; [exact W|]. split; [eapply wf_child; eassumption | lia].
+  - cbn in E. injection E as <- <-.
+    change (mkStore (nodes s ++ [empty_node])) with (fst (new_node s empty_node)).
+    split; [|split].
+    + apply wf_add_link; [apply wf_new_node; [exact W | reflexivity]|].
+      rewrite length_new_node. lia.
+    + unfold add_link. rewrite length_set_links, length_new_node. lia.
+    + unfold add_link. rewrite length_set_links, length_new_node. lia.
+Qed.
